@@ -85,7 +85,19 @@ var kindTable = []kindInfo{
 	// differ: the REST paths of the fake carry no group)
 	{schema.GroupVersionKind{Group: "stable.example.com", Version: "v1", Kind: "Baz"}, "bazs", true},
 	{schema.GroupVersionKind{Group: "other.example.com", Version: "v1", Kind: "Baz"}, "obazs", true},
+	// the kind ApplyTask falls back to client-side apply for (cluster-scoped, no CRD; not in kubectl's scheme,
+	// so a client-side PATCH of it is a JSON merge patch, as for a custom resource)
+	{schema.GroupVersionKind{Group: "apiregistration.k8s.io", Version: "v1", Kind: "APIService"}, "apiservices", false},
 }
+
+// apiSvcName is the one APIService name of the generated universes.
+const apiSvcName = "v1.apisvc.example.com"
+
+// errStream is what the fake answers a server-side-apply PATCH with when the address
+// `FStream id n` is scripted: a transport-level error whose text is the one ApplyTask looks for
+// (API servers before 1.21 killed the HTTP/2 stream of an apply PATCH of an APIService,
+// kubernetes/kubernetes#89264).
+var errStream = fmt.Errorf("stream error: stream ID 3; INTERNAL_ERROR")
 
 // EntryInvalid builds a universe entry whose manifests fail the validator's field checks for
 // another reason than the namespace scope: an apiVersion the mapper does not know (of a known
@@ -133,6 +145,8 @@ func Entry(kind, ns, name string) UEntry {
 		e.Kind = KNs
 	case "CustomResourceDefinition":
 		e.Kind = KCrd
+	case "APIService":
+		e.Kind = KApiSvc
 	}
 	e.FInv = (k.Namespaced && ns == "") || (!k.Namespaced && ns != "")
 	return e
@@ -423,6 +437,13 @@ func content(univ Universe, id int, deps []int, bad, keep bool, ver int, owner O
 			"versions": []interface{}{map[string]interface{}{"name": "v1", "served": true, "storage": true}},
 		}
 	}
+	if e.Kind == KApiSvc {
+		o.Object["spec"] = map[string]interface{}{
+			"group": "apisvc.example.com", "version": "v1",
+			"groupPriorityMinimum": int64(100), "versionPriority": int64(100),
+			"service": map[string]interface{}{"name": "apisvc", "namespace": invNS},
+		}
+	}
 	return o
 }
 
@@ -658,6 +679,7 @@ type Server struct {
 
 	nInvList, nInvGet, nInvWrite int
 	nGet                         map[int]int
+	nSSA                         map[int]int // server-side-apply PATCHes per object
 
 	log   []Item
 	addrs []FAddr // every address this run touched, in order of first use
@@ -676,7 +698,7 @@ type Server struct {
 }
 
 func NewServer(st *Store, clock *Clock, env Env) *Server {
-	s := &Server{st: st, univ: st.univ, clock: clock, faults: map[string]int{}, nGet: map[int]int{}, cancelAt: env.Cancel}
+	s := &Server{st: st, univ: st.univ, clock: clock, faults: map[string]int{}, nGet: map[int]int{}, nSSA: map[int]int{}, cancelAt: env.Cancel}
 	for _, f := range env.Faults {
 		s.faults[f.Key()] = 1 + f.Err
 	}
@@ -986,6 +1008,21 @@ func (s *Server) opPatch(gvr schema.GroupVersionResource, ns, name string, pt ty
 	ssa := pt == types.ApplyPatchType
 	coq := emit.App("RPatch", emit.Nat(id), emit.Bool(ssa), emit.Bool(dry))
 	text := fmt.Sprintf("RPatch %d ssa=%v dry=%v", id, ssa, dry)
+	if ssa {
+		// the n-th apply PATCH of this object: a scripted stream error takes precedence over FApply.
+		// The address is offered to the fault enumeration only for an APIService (for every other
+		// kind the real code must treat it like any other failure; generated separately, rarely)
+		a := FAddr{Kind: "FStream", I: id, N: s.nSSA[id]}
+		s.nSSA[id]++
+		scripted := s.faults[a.Key()] > 0
+		if s.univ[id].Kind == KApiSvc || scripted {
+			_ = s.hit(a)
+		}
+		if scripted {
+			s.logReq(coq, text, false)
+			return nil, errStream
+		}
+	}
 	if err := s.hit(FAddr{Kind: "FApply", I: id}); err != nil {
 		s.logReq(coq, text, false)
 		return nil, err
@@ -1324,6 +1361,9 @@ func (s *Server) ServeREST(req *http.Request) (*http.Response, error) {
 	case req.Method == http.MethodPatch && name != "":
 		pt := types.PatchType(strings.TrimSpace(strings.Split(req.Header.Get("Content-Type"), ";")[0]))
 		o, err := s.opPatch(gvr, ns, name, pt, body, dry)
+		if err == errStream {
+			return nil, err // the connection's stream died: a transport error, no HTTP answer
+		}
 		if err != nil {
 			return errResponse(err), nil
 		}
